@@ -70,6 +70,25 @@ def run(prog, rep, tier):
                 if from_self or stdout:
                     fw.append((blk.idx, t.cargs[:80]))
         key = 'R14.1|%s|flush-forwarded' % body.nkey
+        if not fw and body.pkg == 'mla-bindings-c':
+            # `with_writer(handle, |w| w.flush().map_err(..))`: the flush sits in a closure that a private helper runs on the writer behind the handle.
+            # The closure returns the result of flush on its parameter; with the helper spliced in, the call that runs the closure is the forwarding call
+            from ..inline import inlined_body as _inl
+            good_cl = []
+            for C_ in prog.closures_of(body):
+                fl_ = [b_ for b_ in C_.calls() if b_.term.cmethod == 'flush' and b_.term.args and b_.term.args[0].place is not None and
+                       any(p_ >= 2 for p_ in origins(C_, [b_.term.args[0].place[0]], through_calls=True).params)]
+                if len(fl_) == 1 and must_derive(C_, 0, lambda k, ob, bb, f_=fl_[0]: k == 'call' and bb == f_.idx, extra_transparent=('map_err',)):
+                    good_cl.append(C_.defpath)
+            if good_cl:
+                ib_ = _inl(prog, body)
+                for blk in ib_.blocks:
+                    t = blk.term
+                    if t.kind == 'call' and not blk.cleanup and t.cmethod in ('call_once', 'call_mut', 'call') and t.args and t.args[0].place is not None:
+                        if any(a_.j.get('closure') in good_cl for (_b, _i, a_) in origins(ib_, [t.args[0].place[0]], through_calls=False).aggs):
+                            fw.append((blk.idx, 'flush of the writer in the closure run by the handle helper'))
+                if fw:
+                    body = ib_
         if not fw:
             rep.ob('R14.1', False, key, 'flush does not forward to the wrapped writer: data buffered below this layer is not pushed to the destination', body.loc())
             continue
